@@ -4,6 +4,7 @@
    Lexicon.make_lexicon by props/C43.py on every check. *)
 From Coq Require Import ZArith List Bool String.
 From CyVerif Require Import Model.M_Plex Proof.P_Plex_Deriv Model.M_Lexicon Proof.P_Lexicon Proof.P_LexiconDots Gen.Gen_Lexicon.
+From CyVerif Require Import Model.M_CallArgs Proof.P_CallArgs.
 Import ListNotations.
 Open Scope Z_scope.
 
@@ -108,6 +109,38 @@ Proof.
   intros fixed n. split; [apply scan_dots_correct; auto | split; [apply dot_tokens_level | apply dot_tokens_shape]].
 Qed.
 Print Assumptions C43_dot_run_scan.
+
+(* ---- argument lists (calls, class headers, decorators): Parsing.p_call_parse_args ----
+   kinds: APos a | AStar *a | AKw k=a | ADStar **a; tail: ")" | ",)" | a comprehension clause.  py_valid is Python
+   3.12's grammar (pairwise form: no plain positional after a keyword or **, no * after **; a trailing comma needs an
+   argument; a bare generator expression must be the only argument of a call).  The loop as it is (first argument
+   false) accepts EXACTLY these, for every sequence of any length, in calls (allow_genexp) and class headers *)
+Theorem C43_call_args_accepted_iff_python : forall allow_genexp l t,
+  accepts false allow_genexp l t = true <-> py_valid allow_genexp l t.
+Proof. exact accepts_iff_python. Qed.
+Print Assumptions C43_call_args_accepted_iff_python.
+
+(* the pairwise form is the PEG rule of Grammar/python.gram, (positional | *x)* (k=v | *x)* (k=v | **x)*,
+   and the executable form used by the correspondence run decides it *)
+Theorem C43_call_args_grammar_forms : forall l,
+  (py_args_ok l <-> py_grammar l) /\ (py_args_b l = true <-> py_args_ok l).
+Proof. intros l. split; [apply pairwise_iff_grammar | apply py_args_b_spec]. Qed.
+Print Assumptions C43_call_args_grammar_forms.
+
+(* an accepted list records every argument exactly once (positional groups + keyword items) *)
+Theorem C43_call_args_keeps_all_arguments : forall g allow_genexp l t ps ks,
+  parse_args g allow_genexp l t = Some (ps, ks) -> (psize ps + List.length ks = List.length l)%nat.
+Proof. exact accepted_keeps_all_arguments. Qed.
+Print Assumptions C43_call_args_keeps_all_arguments.
+
+(* the guard before a star argument must be `starstar_seen`: with `keyword_args` (first argument true) valid Python
+   such as f(k=1, *a) and class C(metaclass=M, *bases, x=1, **kw,) is rejected *)
+Theorem C43_call_args_star_guard_on_keywords_refuted :
+  py_valid true [AKw; AStar] TEnd /\ accepts true true [AKw; AStar] TEnd = false /\ accepts false true [AKw; AStar] TEnd = true
+  /\ py_valid false [AKw; AStar; AKw; ADStar] TComma /\ accepts true false [AKw; AStar; AKw; ADStar] TComma = false.
+Proof. exact star_guard_on_keywords_refuted. Qed.
+Print Assumptions C43_call_args_star_guard_on_keywords_refuted.
+
 
 Example C43_nonvacuous :
   L py_number (word "1_000.5e-3J") /\ L (lex_number false) (word "1_000.5e-3J")
